@@ -106,6 +106,7 @@ type execSpec struct {
 	t        reflect.Type
 	opts     []z.ExecOption
 	rec      *Recorder
+	fmtTag   *string
 }
 
 func (g *Gen) execSpec() *execSpec {
@@ -134,6 +135,7 @@ func (g *Gen) execSpec() *execSpec {
 	}
 	if g.R.P(20) {
 		tag := fmt.Sprintf("F%d:", g.R.Intn(100))
+		e.fmtTag = &tag
 		e.opts = append(e.opts, z.WithIssueFormatter(func(i *z.ZogIssue, c z.Ctx) { i.SetMessage(tag + i.Code) }))
 	}
 	return e
@@ -214,7 +216,7 @@ func NewHistoryCase(g *Gen, id int) (*Case, []string, string) {
 		tags = append(tags, "isolation_dirty")
 		notes = append(notes, "on fresh pools:\n"+refCanon+"\non pools handing out dirty objects:\n"+c)
 	}
-	c := &Case{ID: id, Validate: probe.validate, Schema: n, In: probe.in, Collide: hasIssuePath(n), Shape: Shape(n), PoolMode: "history", TypesOK: true, CtxOK: true, Known: false}
+	c := &Case{ID: id, Validate: probe.validate, Schema: n, In: probe.in, Collide: hasIssuePath(n), Shape: Shape(n), PoolMode: "history", TypesOK: true, CtxOK: true, Known: false, ExecFmt: probe.fmtTag}
 	c.Dest0 = CoqDval(probe.dest0, n)
 	c.dest0v = probe.dest0
 	c.Obs = after
